@@ -121,7 +121,8 @@ def run(ctx):
                    "(known findings excepted)", stats["violations"] == 0 or not ctx.violations, f"{dict(stats)}")
     ctx.cover(trace=dict(tstats), oracle=dict(stats), per_pass=dict(pstats), pipeline=pinfo, discarded=dict(discards),
               feature_histogram=dict(sorted(feats.items())),
-              translator={"registry": len(info["registry"]) if info else None, "guards_graph_inputs": info.get("guard") if info else None},
+              translator={"registry": len(info["registry"]) if info else None, "guards_graph_inputs": info.get("guard") if info else None,
+                          "concat_drop_checks_other_dims": info.get("concat_fixed") if info else None},
               generator="typed random DAGs (profiles mixed/fold/control/rules/seq): constants as initializers / Constant attrs, shape chains, "
                         "Cast/CastLike chains, If/Loop capturing outer values and owning initializers, sequence ops, Dropout variants, zero-size "
                         "tensors, model-local functions with attribute references, overridable initializer-inputs; ONNX node tests lifted "
